@@ -626,7 +626,8 @@ def index_within_count(rep, prog):
                         break
                     continue
             if other is not None:
-                if _is_last_voxel(other, axis, prefix):
+                from ..model import expand as _exp3
+                if _is_last_voxel(other, axis, prefix) or _is_last_voxel(_exp3(fn, other), axis, prefix):
                     rep.ok(rule, prog, fn, n, "min(%s, %snb_voxels_%s_ - 1): limited to the last voxel of axis %s" % (short(n, 60), prefix, axis, axis))
                     for p, slot, ch in fi.ancestors(parent):
                         if p.get("k") in CASTS:
